@@ -27,6 +27,7 @@ structure Node where
   blks : List Blk
   best : Nat
   accts : List Bytes          -- registry: account bytes ↦ index (Aergo.Pool works on numbers)
+  shown : List Bytes          -- accounts `state` prints
   hashes : List Bytes         -- registry: carried hash ↦ index
   names : List Bytes          -- names seen in create commands (for `state`)
   pool : Pool.Pool
@@ -37,7 +38,7 @@ def emptyWorld : World :=
   { nonce := fun _ => 0, led := { bal := fun _ => 0, names := fun _ => none, pend := [] } }
 
 def Node.init : Node :=
-  { cid := [], acceptCid := [], pub := false, txs := [], blks := [], best := 0, accts := [], hashes := [], names := [],
+  { cid := [], acceptCid := [], pub := false, txs := [], blks := [], best := 0, accts := [], shown := [], hashes := [], names := [],
     pool := Pool.Pool.init, pentries := [], poolW := emptyWorld }
 
 def findTx (nd : Node) (tid : Nat) : Option Tx := (nd.txs.find? (·.1 == tid)).map (·.2)
@@ -76,18 +77,22 @@ def sErr : SErr → String
   | .nonceLow => "noncelow" | .nonceHigh => "noncehigh" | .balance => "balance" | .fee => "fee"
   | .payload => "payload" | .recipient => "recipient"
 
+/-- classes are named after the error value, not after the stage that produced it -/
+def codeName (c : Nat) : String :=
+  if c == cInsufficient then "balance" else if c == cRecipient then "recipient" else "x"
+
 def xErr : XErr → String
   | .signMismatch => "sigmismatch"
-  | .v e => "v:" ++ vErr e
-  | .s e => "s:" ++ sErr e
-  | .body _ => "x"
+  | .v e => vErr e
+  | .s e => sErr e
+  | .body c => codeName c
 
 def aErr : AErr → String
   | .exists_ => "exists"
-  | .v e => "v:" ++ vErr e
+  | .v e => vErr e
   | .sig => "sig"
-  | .s e => "s:" ++ sErr e
-  | .extra _ => "x"
+  | .s e => sErr e
+  | .extra c => codeName c
 
 def bErr : BErr → String
   | .tx e => xErr e
@@ -121,8 +126,8 @@ def admit (nd : Node) (tid : Nat) (t : Tx) : Node × String :=
     match r.2 with
     | .ok => ({ nd1 with pentries := (hi, tid) :: nd1.pentries.filter (·.1 != hi) }, "ok")
     | .already => (nd1, "exists")
-    | .low => (nd1, "s:noncelow")
-    | .insufficient => (nd1, "s:balance")
+    | .low => (nd1, "noncelow")
+    | .insufficient => (nd1, "balance")
     | .same => (nd1, "same")
 
 /-- `MemPoolDel{block}` after a block was executed and connected: `removeOnBlockArrival`. -/
@@ -250,7 +255,7 @@ def stateLine (nd : Node) : String :=
   match worldOf nd nd.best with
   | none => "bad-op"
   | some W =>
-    let accs := nd.accts.map (fun a => s!"{short a}:{W.nonce a}:{W.led.bal a}")
+    let accs := nd.shown.map (fun a => s!"{short a}:{W.nonce a}:{W.led.bal a}")
     let nms := nd.names.map (fun n => match W.led.names n with
       | some e => s!"{hex n}={short e.owner}/{short e.dest}"
       | none => s!"{hex n}=-")
@@ -270,7 +275,7 @@ def step (nd : Node) (line : String) : Node × String :=
                          led := { bal := fun a => if addrs.contains a then g else 0, names := fun _ => none, pend := [] } }
       let accts := addrs ++ [aergoName]
       let P := (Pool.Pool.init.setStateDB 1 0 1 (sigmaOf W accts)).1
-      ({ Node.init with cid := cid, acceptCid := acid, pub := pub == "1", accts := accts,
+      ({ Node.init with cid := cid, acceptCid := acid, pub := pub == "1", accts := accts, shown := accts,
                         blks := [{ id := 0, parent := 0, height := 0, txs := [], post := some W }],
                         pool := P, poolW := W }, "ok")
     | _, _, _, _ => (nd, "bad-op")
